@@ -40,6 +40,7 @@ type Result struct {
 	Sites    int            `json:"sites,omitempty"`
 	Pairs    int            `json:"pairs,omitempty"`
 	NonTriv  bool           `json:"nontrivial"`
+	Evals    int            `json:"evals,omitempty"` // executions inside this case (default 1)
 	Sample   any            `json:"sample,omitempty"`
 	Choices  []uint64       `json:"choices,omitempty"`
 	Trace    []string       `json:"trace,omitempty"`
